@@ -1,50 +1,73 @@
 (* Operands obtained by PARSING, on the liberal live layouts of RelLiveAll.v (the mirror of the last
-   part of RelLive.v): Entry::from_str / Relation::from_str of ANY text that is read without error
-   as one entry — lead r ("|" ws r')* — (as a relation: no alternatives).  The operand handle
-   points INTO the parsed tree; an edit that attaches it detaches it from there first.  The text is
-   the rendering of the liberal layout [entry_afield lead r alts]; its white space at the end goes
-   with the last relation or with the entry exactly as the parser decides (RelLiveAll.lentry_of /
-   lrel_of with last = true), and Entry::replace strips it from the new relation again
-   (RelLiveAll.a_ereplace).  Specification side.  Definitions only. *)
+   part of RelLive.v): Entry::from_str / Relation::from_str of ANY text they accept — a text read
+   (strictly) without error that holds exactly one entry (for a relation: with exactly one relation).
+   Such a text is: white space, any number of EMPTY items "," ws, the entry r ("|" ws r')*, any
+   number of empty items "," ws  (proofs/RelLiveAllParsedP.entry_text_cover: every accepted text is
+   the rendering of one of these layouts).  The operand handle points INTO the parsed tree; an edit
+   that attaches it detaches it from there first.  The white space after the entry's last relation
+   goes with that relation, with the entry or stays outside exactly as the parser decides
+   (RelLiveAll.lentry_of / lrel_of with last = "no item follows"), and Entry::replace strips it from
+   the new relation again (RelLiveAll.a_ereplace).  Specification side.  Definitions only. *)
 From V.model Require Import Base RelLex RelParse RelAcc RelGrammar RelGrammarAll.
 From V.model Require Import RelEdit RelEditSpec RelEditTree RelLiveAll.
 
+(* the layout of a text with exactly one entry: [pre] = the white space after each "," before the
+   entry, [post] = the white space after each "," after it *)
+Definition emp (w : list rtoken) : list rtoken * aitem := (w, AEmpty).
+Fixpoint place (w : list rtoken) (pre : list (list rtoken)) (e : aitem) (post : list (list rtoken * aitem))
+  : list (list rtoken * aitem) :=
+  match pre with
+  | [] => (w, e) :: post
+  | w' :: pre' => (w, AEmpty) :: place w' pre' e post
+  end.
+Definition entry_afield (lead : list rtoken) (pre : list (list rtoken)) (r : arel) (alts : list (list rtoken * arel))
+           (post : list (list rtoken)) : afield :=
+  match pre with
+  | [] => mk_afield lead (AEntry r alts) (map emp post)
+  | w :: pre' => mk_afield lead AEmpty (place w pre' (AEntry r alts) (map emp post))
+  end.
+Definition entry_text lead pre r alts post : str := arender (entry_afield lead pre r alts post).
+(* where the parser puts the entry *)
+Definition comma_w (w : list rtoken) : list rtoken := (COMMA, [44%N]) :: w.
+Definition pre_toks (lead : list rtoken) (pre : list (list rtoken)) : list rtoken := lead ++ flat_map comma_w pre.
+Definition entry_at (lead : list rtoken) (pre : list (list rtoken)) : nat := length (pre_toks lead pre).
+
+Record ptext := mk_ptext { p_lead : list rtoken; p_pre : list (list rtoken); p_post : list (list rtoken) }.
+Definition p_last (x : ptext) : bool := is_nil (p_post x).
 Inductive pop : Type :=
-| PPush (lead : list rtoken) (r : arel) (alts : list (list rtoken * arel))
-| PInsert (i : nat) (lead : list rtoken) (r : arel) (alts : list (list rtoken * arel))
-| PReplace (i : nat) (lead : list rtoken) (r : arel) (alts : list (list rtoken * arel))
-| PEPush (i : nat) (lead : list rtoken) (r : arel)
-| PEReplace (i j : nat) (lead : list rtoken) (r : arel).
-Definition entry_afield (lead : list rtoken) (r : arel) (alts : list (list rtoken * arel)) : afield :=
-  mk_afield lead (AEntry r alts) [].
-Definition entry_text (lead : list rtoken) (r : arel) (alts : list (list rtoken * arel)) : str :=
-  arender (entry_afield lead r alts).
+| PPush (x : ptext) (r : arel) (alts : list (list rtoken * arel))
+| PInsert (i : nat) (x : ptext) (r : arel) (alts : list (list rtoken * arel))
+| PReplace (i : nat) (x : ptext) (r : arel) (alts : list (list rtoken * arel))
+| PEPush (i : nat) (x : ptext) (r : arel)
+| PEReplace (i j : nat) (x : ptext) (r : arel).
+Definition ptext_field (x : ptext) r alts : afield := entry_afield (p_lead x) (p_pre x) r alts (p_post x).
+Definition ptext_text (x : ptext) r alts : str := arender (ptext_field x r alts).
 Definition pcompile (o : pop) : list op :=
   match o with
-  | PPush lead r alts => [ONewEntry 1 (ESParse (entry_text lead r alts)); OPush 1]
-  | PInsert i lead r alts => [ONewEntry 1 (ESParse (entry_text lead r alts)); OInsert i 1]
-  | PReplace i lead r alts => [ONewEntry 1 (ESParse (entry_text lead r alts)); OReplace i 1]
-  | PEPush i lead r => [ONewRel 1 (RSParse (entry_text lead r [])); OGetEntry 0 i; OEPush 0 1]
-  | PEReplace i j lead r => [ONewRel 1 (RSParse (entry_text lead r [])); OGetEntry 0 i; OEReplace 0 j 1]
+  | PPush x r alts => [ONewEntry 1 (ESParse (ptext_text x r alts)); OPush 1]
+  | PInsert i x r alts => [ONewEntry 1 (ESParse (ptext_text x r alts)); OInsert i 1]
+  | PReplace i x r alts => [ONewEntry 1 (ESParse (ptext_text x r alts)); OReplace i 1]
+  | PEPush i x r => [ONewRel 1 (RSParse (ptext_text x r [])); OGetEntry 0 i; OEPush 0 1]
+  | PEReplace i j x r => [ONewRel 1 (RSParse (ptext_text x r [])); OGetEntry 0 i; OEReplace 0 j 1]
   end.
 (* the nodes the handles point at *)
 Definition ptop (o : pop) : top :=
   match o with
-  | PPush _ r alts => TPush (Node ENTRY (arels_elems r alts true))
-  | PInsert i _ r alts => TInsert i (Node ENTRY (arels_elems r alts true))
-  | PReplace i _ r alts => TReplace i (Node ENTRY (arels_elems r alts true))
-  | PEPush i _ r => TEPush i (arel_tree r true)
-  | PEReplace i j _ r => TEReplace i j (arel_tree r true)
+  | PPush x r alts => TPush (Node ENTRY (arels_elems r alts (p_last x)))
+  | PInsert i x r alts => TInsert i (Node ENTRY (arels_elems r alts (p_last x)))
+  | PReplace i x r alts => TReplace i (Node ENTRY (arels_elems r alts (p_last x)))
+  | PEPush i x r => TEPush i (arel_tree r (p_last x))
+  | PEReplace i j x r => TEReplace i j (arel_tree r (p_last x))
   end.
 Definition a_pop (o : pop) (l : lroot) : option lroot :=
   match o with
-  | PPush _ r alts => Some (a_push l (lentry_of r alts true))
-  | PInsert i _ r alts => Some (a_insert l i (lentry_of r alts true))
-  | PReplace i _ r alts => a_replace l i (lentry_of r alts true)
-  | PEPush i _ r => a_on_entry l i (fun e => a_epush e (lrel_of r true))
-  | PEReplace i j _ r =>
+  | PPush x r alts => Some (a_push l (lentry_of r alts (p_last x)))
+  | PInsert i x r alts => Some (a_insert l i (lentry_of r alts (p_last x)))
+  | PReplace i x r alts => a_replace l i (lentry_of r alts (p_last x))
+  | PEPush i x r => a_on_entry l i (fun e => a_epush e (lrel_of r (p_last x)))
+  | PEReplace i j x r =>
       match nth_entry l i with
-      | Some (ci, e) => if j <? n_rels e then Some (replace_at ci (RE (a_ereplace e j (lrel_of r true))) l) else None
+      | Some (ci, e) => if j <? n_rels e then Some (replace_at ci (RE (a_ereplace e j (lrel_of r (p_last x)))) l) else None
       | None => None
       end
   end.
@@ -76,9 +99,9 @@ Definition arel_readable (r : arel) : bool :=
   match a_ver r with Some v => match parse_vc (av_op v) with Some _ => true | None => false end | None => true end.
 Definition poperands_ok (o : pop) : bool :=
   match o with
-  | PPush lead r alts | PInsert _ lead r alts | PReplace _ lead r alts =>
-      awf false (entry_afield lead r alts) && arel_readable r && forallb (fun wr => arel_readable (snd wr)) alts
-  | PEPush _ lead r | PEReplace _ _ lead r => awf false (entry_afield lead r []) && arel_readable r
+  | PPush x r alts | PInsert _ x r alts | PReplace _ x r alts =>
+      awf false (ptext_field x r alts) && arel_readable r && forallb (fun wr => arel_readable (snd wr)) alts
+  | PEPush _ x r | PEReplace _ _ x r => awf false (ptext_field x r []) && arel_readable r
   end.
 
 (* histories mixing all kinds of operands *)
